@@ -210,7 +210,7 @@ def _mk_component(sim, i, sp, real_components):
 
 
 async def drive(sim: Sim, proto, tr: FakeTransport, chunks: list[bytes], schedule: list[int],
-                allow_disconnect: bool, observe=None, horizon: float = 200.0):
+                allow_disconnect: bool, observe=None, horizon: float = 200.0, deltas=None):
     """Interprets the schedule; always ends by delivering everything (unless the
     peer disconnected), releasing all gates and advancing past the timeout."""
     idx = 0
@@ -243,7 +243,8 @@ async def drive(sim: Sim, proto, tr: FakeTransport, chunks: list[bytes], schedul
             sim.release_one()
             await vloop.settle(4)
         elif a == "time":
-            await asyncio.sleep(DELTAS[sub % len(DELTAS)])
+            ds = deltas or DELTAS
+            await asyncio.sleep(ds[sub % len(ds)])
         elif a == "disc":
             disconnected = True
             tr.peer_disconnect(ConnectionResetError(104, "reset") if sub % 2 else None)
